@@ -185,6 +185,9 @@ func (ar armRule) sameRow() {
 			default:
 				continue
 			}
+			if e.Inlined {
+				continue // inside a helper: the row expression is the helper's parameter
+			}
 			n++
 			if e.Offset == nil {
 				bad = e
